@@ -53,11 +53,15 @@ A == Signed(comp, nr)
 Col(cm, j) == Eager([k \in 1..Len(cm) |-> cm[k][j]])
 
 (* the clauses of the property, on integer vectors *)
-Balanced(M, x) == IsNullVec(M, x)
+\* exact also for finely resolved compositions (entries and coefficients up to 2^31): CRT zero test
+Balanced(M, x) == IsNullVecBig(M, x)
 Positive(x) == AllPositive(x)
 Coprime(x) == VecGCD(x) = 1
 \* linear form x0 + sum_k s_k v_k balances identically in the free parameters s_k
-LinearFormBalanced(M, x0, vs) == QIsNullVec(M, x0) /\ \A k \in 1..Len(vs) : QIsNullVec(M, vs[k])
+\* rational vectors: integer ones through the large-number test, others through Rational (small numbers)
+QBalanced(M, xq) == IF \A j \in 1..Len(xq) : xq[j][2] = 1
+                    THEN Balanced(M, [j \in 1..Len(xq) |-> xq[j][1]]) ELSE QIsNullVec(M, xq)
+LinearFormBalanced(M, x0, vs) == QBalanced(M, x0) /\ \A k \in 1..Len(vs) : QBalanced(M, vs[k])
 
 ------------------------------------------------------------------------------
 (* Classification of a signed matrix M.                                                       *)
@@ -67,7 +71,10 @@ LinearFormBalanced(M, x0, vs) == QIsNullVec(M, x0) /\ \A k \in 1..Len(vs) : QIsN
 (*   infeasible nullity 0 (sub "null0") or nullity >= 2 with a Stiemke certificate ("cert")   *)
 (*   multi      nullity >= 2 with positive solutions; mins = all solutions of minimal sum     *)
 (*              when complete (the search box provably contains every solution of that sum)   *)
-(*   undecided  nullity >= 2, neither a positive solution nor a certificate inside the boxes  *)
+(*   undecided  nullity >= 2, neither a positive solution nor a certificate inside the boxes; *)
+(*              sub "unclassified": the matrix is beyond the range of exact 32-bit elimination *)
+(*              (finely resolved fractional compositions) and was not classified at all - the *)
+(*              soundness clauses (balanced, positive, integer, coprime, keys) are still judged *)
 ClassInfo(M, B, Y) ==
     LET E == Reduce(M)
         n == NCols(M)
@@ -91,6 +98,8 @@ ClassInfo(M, B, Y) ==
                  ELSE [NoInfo EXCEPT !.c = "undecided", !.d = d]
 
 NoPositive(c) == c \in {"ray_neg", "ray_zero", "infeasible"}
+\* no elimination may be attempted on this problem (numbers too large)
+Unelim(inf) == inf.sub \in {"unclassified", "witness-unclassified"}
 SomePositive(c) == c \in {"ray_pos", "multi"}
 
 \* minimal coefficient sum among ALL positive solutions (decided by bounded search when small enough)
@@ -133,11 +142,15 @@ JudgeRaise(res, c, m) ==
 JudgeNum(M, res, inf, m) ==
     IF NoPositive(inf.c) THEN "missing-raise"
     ELSE IF m = "True" /\ inf.c # "ray_pos"
-         THEN (IF res.extra # 0 THEN "keys" ELSE IF QIsNullVec(M, res.x) THEN "" ELSE "not-balanced")
+         THEN (IF res.extra # 0 THEN "keys"
+               ELSE IF QBalanced(M, res.x)
+                    THEN (IF inf.c = "undecided" THEN "undecided" ELSE "")
+                    ELSE "not-balanced")
     ELSE IF ~KeysExact(res) THEN "keys"
     ELSE LET c1 == NumClauses(M, res, res.x) IN
          IF c1 # "" THEN c1
          ELSE IF m = "None" /\ inf.c = "multi" /\ VecSum(IntOf(res.x)) > inf.minsum THEN "not-minimal"
+         ELSE IF Unelim(inf) THEN (IF inf.c = "undecided" THEN "undecided" ELSE "nomin")
          ELSE IF m = "None" /\ inf.c # "ray_pos" THEN MinClause(M, res.x)
          ELSE ""
 
@@ -250,8 +263,15 @@ Classify ==
     /\ stage' = "classified"
     /\ UNCHANGED <<comp, nr, np, nk, crow, scale, filled, dupl, mode, outcome>>
 
+\* the problem is taken as it is, without classification (see "undecided / unclassified" above)
+Unclassified ==
+    /\ stage = "fill" /\ filled = nk * N
+    /\ info' = [NoInfo EXCEPT !.c = "undecided", !.sub = "unclassified"]
+    /\ stage' = "classified"
+    /\ UNCHANGED <<comp, nr, np, nk, crow, scale, filled, dupl, mode, outcome>>
+
 ChooseDupl(D) ==
-    /\ stage = "classified" /\ dupl = {}
+    /\ stage = "classified" /\ dupl = {} /\ ~Unelim(info)
     /\ ValidDupl(comp, nr, D)
     /\ dupl' = D
     /\ LET pcm == PlacementClassMap(D)
@@ -267,7 +287,8 @@ Witness(x) ==
     /\ Len(x) = N /\ Balanced(A, x) /\ Positive(x)
     /\ info.c \in {"undecided", "multi", "ray_pos"}
     /\ info' = IF info.c = "undecided"
-               THEN [info EXCEPT !.c = "multi", !.sub = "witness", !.minsum = VecSum(x)]
+               THEN [info EXCEPT !.c = "multi", !.minsum = VecSum(x),
+                                 !.sub = IF Unelim(info) THEN "witness-unclassified" ELSE "witness"]
                ELSE IF info.c = "multi" /\ VecSum(x) < info.minsum
                     THEN [info EXCEPT !.minsum = VecSum(x), !.mins = {}, !.complete = FALSE]
                     ELSE info
@@ -335,7 +356,7 @@ Classified == stage = "classified" /\ dupl = {}
 NullBasisSound == Classified =>
     LET E == Reduce(A)  Bs == NullBasisOf(E) IN
     /\ Len(Bs) = N - RankOf(E) /\ info.d = Len(Bs)
-    /\ \A i \in 1..Len(Bs) : IsNullVec(A, Bs[i]) /\ (VecGCD(Bs[i]) = 1)
+    /\ \A i \in 1..Len(Bs) : Balanced(A, Bs[i]) /\ (VecGCD(Bs[i]) = 1)
     /\ RankOf(E) = Rank(Transpose(A))
 
 \* a Stiemke certificate and a positive solution never coexist
@@ -355,6 +376,7 @@ RayGeneratorIsMinSum == (Classified /\ CheckBox > 0) =>
           /\ \A x \in P : x = info.gen \/ VecSum(x) > VecSum(info.gen)
     /\ (info.d = 1 /\ MaxAbs(info.gen) <= CheckBox) => IsRayBySearch(A, CheckBox)
     /\ info.d = 0 => SmallNullVectors(A, CheckBox) = {}
+    /\ \A x \in Box(N, -1, CheckBox) : IsNullVecBig(A, x) = IsNullVec(A, x)
     /\ (info.c = "multi" /\ info.complete /\ info.minsum - (N - 1) <= CheckBox) =>
           LET P == PosBox(A, CheckBox) IN
           info.mins = {x \in P : \A y \in P : VecSum(x) <= VecSum(y)}
